@@ -7,6 +7,8 @@ import (
 
 	"github.com/jsightapi/jsight-schema-go-library/errors"
 	"github.com/jsightapi/jsight-schema-go-library/formats/json"
+	"github.com/jsightapi/jsight-schema-go-library/fs"
+	"github.com/jsightapi/jsight-schema-go-library/kit"
 	"github.com/jsightapi/jsight-schema-go-library/notations/jschema"
 	"github.com/jsightapi/jsight-schema-go-library/zzverif/v"
 )
@@ -38,6 +40,8 @@ func ZZC07Types() {
 		{"{\n  @k: " + bad + "\n}", [][2]string{{"@k", `@s | @k`}, {"@s", `"abc" // {minLength: 1}`}}},
 		{`@a`, [][2]string{{"@a", "{ // {additionalProperties: \"@b\"}\n  \"k\": 1\n}"}, {"@b", bad}}},
 		{"[\n  @a\n]", [][2]string{{"@a", "[\n  " + bad + "\n]"}}},
+		{`@a`, [][2]string{{"@a", `@a | @b`}, {"@b", bad}}},
+		{`@a`, [][2]string{{"@a", `@c | @b`}, {"@c", `@a | @b`}, {"@b", `"abc"`}}},
 	}
 	c := cases[v.Choose(0, len(cases)-1)]
 	v.Observe("root", c.root)
@@ -67,6 +71,17 @@ func ZZC07Types() {
 			}
 		}
 		c07err(err, 1<<30, what)
+		// the SDK conversion keeps a DocumentError's own file: file name and position stay consistent
+		ke := kit.ConvertError(fs.NewFile("root", c.root), err)
+		if ke != nil {
+			if n, known := files[ke.Filename()]; known {
+				lim := n
+				if lim < 1 {
+					lim = 1
+				}
+				v.Assert(int(ke.Position()) < lim, "C17/converted-error-position-outside-the-file-it-names/"+what)
+			}
+		}
 	}
 	guard("types.Check", func() { judge(s.Check(), "types.Check") })
 	guard("types.Example", func() {
